@@ -203,6 +203,7 @@ func runC14(e *Engine, r *Report) {
 	}
 	ruleReaderBoundFromFile(e, r)
 	ruleValidatorExact(e, r)
+	ruleReadHashBound(e, r)
 }
 
 // accepted idioms of the snapshot file code, each confirmed by reading the site.
